@@ -113,7 +113,8 @@ type spend struct {
 	root     []byte
 	control  []byte
 	leaf     txscript.TapLeaf
-	merge    bool // multisig signed in two passes with previousScript
+	merge    bool     // multisig co-signed in several SignTxOutput passes chained through previousScript
+	hts      []uint32 // hash types of the signatures of the final script when they differ per signature
 }
 
 const numSpendClasses = 17
@@ -147,6 +148,9 @@ func tapTree(r *mon.Rand, internal *btcec.PrivateKey, leaf txscript.TapLeaf) (ro
 
 func makeSpend(r *mon.Rand, ks *keyStore, class int) *spend {
 	sp := &spend{form: ref.FormLegacy}
+	forceMerge := class >= 100 // class+100: multisig that must be co-signed in several passes
+	class %= 100
+	defer func() { sp.merge = sp.merge || (forceMerge && (class == 4 || class == 7)) }()
 	key := func(compressed bool) []byte {
 		k := randKey(r)
 		sp.privs = append(sp.privs, k)
@@ -156,6 +160,9 @@ func makeSpend(r *mon.Rand, ks *keyStore, class int) *spend {
 	}
 	multisig := func(compressedOnly bool) []byte {
 		n := 1 + r.Intn(3)
+		if !compressedOnly && r.Chance(1, 3) {
+			n = 4 + r.Intn(2) // beyond the standard bare limit; SignTxOutput and the engine do not care
+		}
 		sp.m = 1 + r.Intn(n)
 		for i := 0; i < n; i++ {
 			key(compressedOnly || r.Bool())
@@ -179,7 +186,7 @@ func makeSpend(r *mon.Rand, ks *keyStore, class int) *spend {
 	case 4:
 		sp.class = "multisig"
 		sp.pkScript = multisig(false)
-		sp.merge = sp.m >= 2 && r.Bool()
+		sp.merge = r.Chance(2, 3)
 	case 5:
 		sp.class = "p2sh-p2pk"
 		sp.redeem = p2pkScript(key(r.Bool()))
@@ -192,7 +199,7 @@ func makeSpend(r *mon.Rand, ks *keyStore, class int) *spend {
 		sp.class = "p2sh-multisig"
 		sp.redeem = multisig(false)
 		sp.pkScript = p2shScript(sp.redeem)
-		sp.merge = sp.m >= 2 && r.Bool()
+		sp.merge = r.Chance(2, 3)
 	case 8:
 		sp.class = "p2a"
 		sp.pkScript = []byte{0x51, 0x02, 0x4e, 0x73}
@@ -304,31 +311,11 @@ func signSpend(k *mon.Case, r *mon.Rand, s *sctx, sh *txscript.TxSigHashes, i in
 			k.Count("sign.helper.SignTxOutput", 1)
 			break
 		}
-		// two passes: the first signer knows fewer than m keys, the second the others
-		nA := 1 + r.Intn(sp.m-1)
-		perm := r.Perm(len(sp.pks))
-		inA := map[int]bool{}
-		for _, p := range perm[:nA] {
-			inA[p] = true
-		}
-		for j, pk := range sp.pks {
-			ks.hidden[string(pk)] = !inA[j]
-		}
-		first, err := txscript.SignTxOutput(params, tx, i, sp.pkScript, ht, ks, ks, nil)
+		ss, err := cosign(k, r, s, i, sp, ks)
 		if err != nil {
 			return err
 		}
-		for j, pk := range sp.pks {
-			ks.hidden[string(pk)] = inA[j]
-		}
-		second, err := txscript.SignTxOutput(params, tx, i, sp.pkScript, ht, ks, ks, first)
-		for _, pk := range sp.pks {
-			delete(ks.hidden, string(pk))
-		}
-		if err != nil {
-			return err
-		}
-		in.SignatureScript = second
+		in.SignatureScript = ss
 		k.Count("sign.helper.SignTxOutput.merge", 1)
 	case "p2wpkh", "p2sh-p2wpkh":
 		prog := sp.pkScript
@@ -433,7 +420,7 @@ func oracleVerify(k *mon.Case, s *sctx, i int, sp *spend) {
 			return
 		}
 		for _, sig := range sigs {
-			if uint32(sig[len(sig)-1]) != sp.ht {
+			if uint32(sig[len(sig)-1]) != sp.ht && sp.hts == nil {
 				bad("hash type byte differs from the requested type")
 			}
 			d := ref.LegacyForSig(code, sig, s.tx, i)
@@ -594,13 +581,25 @@ func buildSigned(k *mon.Case, r *mon.Rand, nin int, pick func(i int) int) (s *sc
 
 func signCase(k *mon.Case) {
 	r := k.Rand
-	nin := 1 + r.Intn(5)
-	s, spends, sh, classes, ok := buildSigned(k, r, nin, func(i int) int {
+	signCaseWith(k, func(i int) int {
 		if i > 0 && r.Chance(1, 3) {
 			return r.Intn(numSpendClasses)
 		}
 		return int(k.Index+int64(i)*5) % numSpendClasses
 	})
+}
+
+// cosignCase: only multisig inputs (bare and P2SH, up to 5 keys), always co-signed in several passes
+// with independent hash types (see cosign), then the same engine / mutation checks as sign.helpers.
+func cosignCase(k *mon.Case) {
+	r := k.Rand
+	signCaseWith(k, func(i int) int { return 100 + []int{4, 7}[r.Intn(2)] })
+}
+
+func signCaseWith(k *mon.Case, pick func(i int) int) {
+	r := k.Rand
+	nin := 1 + r.Intn(5)
+	s, spends, sh, classes, ok := buildSigned(k, r, nin, pick)
 	if !ok {
 		return
 	}
@@ -664,6 +663,9 @@ func signCase(k *mon.Case) {
 		for _, f := range fields {
 			s2, _ := mutate(r, s, mutArgs{}, i, f)
 			wantReject := !sp.nosig && ref.Commits(sp.form, sp.ht, i, nin, nOut, f)
+			for _, ht := range sp.hts { // co-signed multisig: every one of the m signatures is needed
+				wantReject = wantReject || ref.Commits(sp.form, ht, i, nin, nOut, f)
+			}
 			if (sp.form == ref.FormTaproot || sp.form == ref.FormTapscript) && !ref.Defined(sp.form, sp.ht, i, len(s2.tx.TxOut)) {
 				continue
 			}
@@ -741,4 +743,148 @@ func nilMidstatesCase(k *mon.Case) {
 	}()
 	k.Count("engine.nilmidstates."+sp.form.String(), 1)
 	k.Eval(mon.Sig("nilmid", sp.class, sp.ht), true)
+}
+
+// cosign signs a (bare or P2SH) multisig input in several SignTxOutput passes. Each pass knows its own
+// subset of the keys, uses its own hash type and receives the previous pass's script as
+// previousScript. After every pass: the script holds exactly min(m, distinct signers so far) non-empty
+// signatures, each of them verifies (btcec) against the REFERENCE digest for its own hash-type byte with
+// keys in script order, and as soon as m signatures are present the engine accepts the script.
+func cosign(k *mon.Case, r *mon.Rand, s *sctx, i int, sp *spend, ks *keyStore) ([]byte, error) {
+	n, m := len(sp.pks), sp.m
+	nOut := len(s.tx.TxOut)
+	code := sp.pkScript
+	if sp.redeem != nil {
+		code = sp.redeem
+	}
+	passes := 2 + r.Intn(3)
+	signers := map[int]bool{} // keys that produced a signature in some pass
+	var prev []byte
+	var log []string
+	defer func() {
+		for _, pk := range sp.pks {
+			delete(ks.hidden, string(pk))
+		}
+	}()
+	for p := 0; p < passes; p++ {
+		// key subset of this pass (any order of signers arises over the cases; sometimes empty)
+		sub := map[int]bool{}
+		for _, j := range r.Perm(n)[:r.Intn(n+1)] {
+			sub[j] = true
+		}
+		if p == passes-1 {
+			// make the last pass complete the script: add keys this signer will actually use
+			for _, j := range r.Perm(n) {
+				u := map[int]bool{}
+				for x := range signers {
+					u[x] = true
+				}
+				for _, x := range firstKeys(sub, m) {
+					u[x] = true
+				}
+				if len(u) >= m {
+					break
+				}
+				sub[j] = true
+			}
+		}
+		ht := stdHashTypes[r.Intn(len(stdHashTypes))]
+		for ht&0x1f == 3 && i >= nOut {
+			ht = stdHashTypes[r.Intn(len(stdHashTypes))] // SINGLE only with a matching output
+		}
+		for j, pk := range sp.pks {
+			ks.hidden[string(pk)] = !sub[j]
+		}
+		script, err := txscript.SignTxOutput(&chaincfg.MainNetParams, s.tx, i, sp.pkScript, txscript.SigHashType(ht), ks, ks, prev)
+		if err != nil {
+			return nil, err
+		}
+		for _, j := range firstKeys(sub, m) { // signMultiSig stops after m signatures, in key order
+			signers[j] = true
+		}
+		var subl []int
+		for j := 0; j < n; j++ {
+			if sub[j] {
+				subl = append(subl, j)
+			}
+		}
+		log = append(log, fmt.Sprintf("pass %d keys %v ht %#x -> %x", p, subl, ht, script))
+		detail := fmt.Sprintf("%d-of-%d %s input %d; %v", m, n, sp.class, i, log)
+
+		items := pushes(script)
+		if sp.redeem != nil {
+			if len(items) == 0 || string(items[len(items)-1]) != string(sp.redeem) {
+				k.Failf("sign:"+sp.class+":cosign:redeem-script-lost", "%s", detail)
+				return script, nil
+			}
+			items = items[:len(items)-1]
+		}
+		var sigs [][]byte
+		for _, it := range items {
+			if len(it) > 0 {
+				sigs = append(sigs, it)
+			}
+		}
+		want := min(m, len(signers))
+		if len(sigs) != want {
+			k.Failf(fmt.Sprintf("sign:%s:cosign:signature-count:%s", sp.class, map[bool]string{true: "dropped", false: "extra"}[len(sigs) < want]),
+				"%d signatures in the script, %d expected (min(m, distinct signers)); %s", len(sigs), want, detail)
+			return script, nil
+		}
+		nextKey := 0
+		sp.hts = sp.hts[:0]
+		for _, sig := range sigs {
+			ok := false
+			if looksLikeECDSASig(sig) {
+				d := ref.LegacyForSig(code, sig, s.tx, i)
+				for ; nextKey < n && !ok; nextKey++ {
+					ok = ecdsaOK(sig[:len(sig)-1], sp.pks[nextKey], d)
+				}
+			}
+			if !ok {
+				k.Failf("sign:"+sp.class+":cosign:signature-not-over-reference-digest",
+					"signature %x does not verify for its own hash type against the remaining keys in script order; %s", sig, detail)
+				return script, nil
+			}
+			sp.hts = append(sp.hts, uint32(sig[len(sig)-1]))
+			k.Count("sign.cosign.sigs_verified", 1)
+		}
+		if len(sigs) == m {
+			old := s.tx.TxIn[i].SignatureScript
+			s.tx.TxIn[i].SignatureScript = script
+			err := engineVerdict(s, i, txscript.StandardVerifyFlags, nil, nil)
+			s.tx.TxIn[i].SignatureScript = old
+			if err != nil {
+				k.Failf("sign:"+sp.class+":cosign:engine-rejects-complete-script", "%v; %s", err, detail)
+				return script, nil
+			}
+			k.Count("sign.cosign.complete_scripts_accepted", 1)
+		}
+		distinct := map[uint32]bool{}
+		for _, h := range sp.hts {
+			distinct[h] = true
+		}
+		if len(distinct) > 1 {
+			k.Count("sign.cosign.mixed_hash_types", 1)
+		}
+		k.Count("sign.cosign.passes", 1)
+		prev = script
+	}
+	if len(sp.hts) > 0 {
+		sp.ht = sp.hts[0]
+	} else {
+		sp.hts = nil
+	}
+	return prev, nil
+}
+
+// firstKeys returns the first (at most m) key indexes of the set in script order.
+func firstKeys(set map[int]bool, m int) []int {
+	var out []int
+	for j := 0; len(out) < m && j < 64; j++ {
+		if set[j] {
+			out = append(out, j)
+		}
+	}
+	return out
 }
